@@ -158,4 +158,9 @@ var propDisplay = stats.Prop(R, "display-program", genDisplay, checkDisplay)
 
 func TestDisplayProgram(t *testing.T) { rapid.Check(t, propDisplay) }
 
+// Several handlers, each with its own history, in separate goroutines at the same time.
+var propParallel = stats.ParallelProp(R, "parallel", func(t *rapid.T) timecase.Case { return timecase.Gen(t, true) }, timecase.Check, 4)
+
+func TestParallel(t *testing.T) { rapid.Check(t, propParallel) }
+
 func TestReplay(t *testing.T) { R.Replay(t) }
